@@ -513,12 +513,7 @@ def check_oracles(res, ctx, case, rows, opts, dump, errors, label):
             fxk = 0 if not r["sec"].endswith(".FX") else (1 if r["act"] == "Buy" else 2)
             return (r["sd"], r.get("sdt") or "", fxk) if "sdt" in r else (r["sd"],)
         keys = [okey(r) for r in rows]
-        if "sdt" not in (rows[0] if rows else {}):
-            # CSV output has no date text: FX rows settle on their trade date, compare FX rows among themselves
-            fx = [(r["sd"], 1 if r["act"] == "Buy" else 2) for r in out_fx]
-            bad = any(a[0] == b[0] and a[1] > b[1] for a, b in zip(fx, fx[1:]))
-        else:
-            bad = False
+        bad = False
         if keys != sorted(keys) or bad:
             res.violation("failing-input", "output not ordered by settlement date / FX buys before FX sells",
                           dict(rep, actual_impl=repr([(r["sec"], r["sd"], r["act"]) for r in rows][:12])))
